@@ -7,7 +7,7 @@ from ..astutil import attr_path, call_name, walk, src, enclosing_func, ancestors
 from ..consteval import UNKNOWN, ClassRef
 from ..framework import rule
 from ..linexpr import Lin, atom_name, cmp_norm, lin
-from .common import DT, LX, PE, PL, PU, ckey
+from .common import witness_instance, DT, LX, PE, PL, PU, ckey
 
 P = "C01"
 EXPLANATION = (
@@ -476,7 +476,7 @@ def d1_11(ctx):
     ]
     for req, rw, plc, n, bit, bools, look in W:
         hook.seen = []
-        kind, res = run_function(ctx, lx.module, fn, {"self": Obj(), p_tag: req, p_rw: rw}, call_hook=hook, deep=False)
+        kind, res = run_function(ctx, lx.module, fn, {"self": witness_instance(lx), p_tag: req, p_rw: rw}, call_hook=hook, deep=False)
         key = ckey(f"{lx.key}._parse_tag_request", f"witness:{req}/{rw}")
         if kind == "unknown":
             ctx.undecided(key, fn, f"_parse_tag_request not foldable on `{req}`: {res}")
